@@ -199,7 +199,9 @@ func runEVM(seed uint64, n int, outDir string, replay string) {
 					o.Pad("panic %v", p)
 				}
 			}()
-			switch rc.Intn(15) {
+			switch rc.Intn(16) {
+			case 15:
+				evSuicideAgain(o, rc, ans)
 			case 14:
 				evGasPurchase(o, rc, ans)
 			case 12, 13:
@@ -227,11 +229,9 @@ func runEVM(seed uint64, n int, outDir string, replay string) {
 // balance - gas used x price - value and the recipient with + value: buying and refunding gas never creates value, in
 // particular not when a product no longer fits a machine word of any width.
 func evGasPurchase(o *h.Out, rc *h.Rng, ans func(string)) {
-	o.Op("note")
-	ans("ok")
 	eligible := true
 	env := newEvEnv(params.SelfDestructRefundForkBlock+10, big.NewInt(1), &eligible)
-	gasLimit := uint64(21000 + rc.Intn(200000))
+	gasLimit := uint64(30000 + rc.Intn(200000)) // above the intrinsic gas of a transfer with one access-list entry
 	if rc.Bool() {
 		gasLimit = 100000
 	}
@@ -286,6 +286,21 @@ func evGasPurchase(o *h.Out, rc *h.Rng, ans func(string)) {
 	msg := types.NewMessage(common.NewAddressFromData(&payer), &to, 0, value, gasLimit, price, nil, types.AccessList{{Address: to}}, false)
 	res, err := core.ApplyMessage(env.evm, msg, new(types.GasPool).AddGas(gasLimit))
 	pa, ra := env.sdb.GetBalance(payer), env.sdb.GetBalance(rcpt)
+	// T2: verdict and final balances against the model (the gas used and whether the transfer took place are read off
+	// the result; the model does the buying and refunding)
+	usedGas, moved := uint64(0), "0"
+	if err == nil {
+		usedGas = res.UsedGas
+		if !res.Failed() {
+			moved = "1"
+		}
+	}
+	o.Op("gasbuy %d %s %s %s %d %s", gasLimit, price, value, bal, usedGas, moved)
+	if err != nil {
+		ans(fmt.Sprintf("refused payer=%s gain=%s", pa, new(big.Int).Sub(ra, big.NewInt(5))))
+	} else {
+		ans(fmt.Sprintf("ok payer=%s gain=%s", pa, new(big.Int).Sub(ra, big.NewInt(5))))
+	}
 	desc := fmt.Sprintf("gas limit %d, gas price %s, value %s, payer balance %s (cost %s)", gasLimit, price, value, bal, cost)
 	switch {
 	case err != nil:
@@ -313,6 +328,88 @@ func evGasPurchase(o *h.Out, rc *h.Rng, ans func(string)) {
 			o.Violate("c02-gas-purchase-creates-or-loses-value", fmt.Sprintf("%s: the recipient ends with %s instead of %s", desc, ra, wantR))
 		}
 	}
+}
+
+// evSuicideAgain: one transaction in which a contract self-destructs, is paid again by a later call of the same
+// transaction and self-destructs again (2-4 calls, values zero or not, to one or two beneficiaries).  T3: the balances
+// of everybody involved plus the gas charge never exceed what was there before plus one refund per SELFDESTRUCT - what
+// a destroyed contract receives afterwards leaves it at its next SELFDESTRUCT exactly once.
+func evSuicideAgain(o *h.Out, rc *h.Rng, ans func(string)) {
+	o.Op("note")
+	ans("ok")
+	pt := params.SelfDestructRefundForkBlock + 10
+	if rc.Chance(30) {
+		pt = params.SelfDestructRefundForkBlock - 10
+	}
+	eligible := true
+	env := newEvEnv(pt, big.NewInt(1), &eligible)
+	victim, orch, payer := evContract(0x41), evContract(0x42), evContract(0xee)
+	bens := []common.InternalAddress{evContract(0x51), evContract(0x52)}
+	// victim: SELFDESTRUCT(beneficiary chosen by the first calldata byte)
+	va := &asm{}
+	va.pushN(0).op(vm.CALLDATALOAD).pushN(248).op(vm.SHR) // first byte
+	// if byte == 0 -> ben0 else ben1: compute ben0 + byte * (ben1 - ben0)
+	b0, b1 := new(big.Int).SetBytes(bens[0].Bytes()), new(big.Int).SetBytes(bens[1].Bytes())
+	va.push(new(big.Int).Sub(b1, b0)).op(vm.MUL).push(b0).op(vm.ADD).op(vm.SELFDESTRUCT)
+	oa := &asm{}
+	ncalls := 2 + rc.Intn(3)
+	sent := new(big.Int)
+	for i := 0; i < ncalls; i++ {
+		v := uint64(0)
+		if rc.Chance(65) {
+			v = uint64(1 + rc.Intn(50))
+		}
+		sent.Add(sent, new(big.Int).SetUint64(v))
+		// mstore8(0, which beneficiary); call(gas, victim, v, 0, 1, 0, 0); pop
+		oa.pushN(uint64(rc.Intn(2))).pushN(0).op(vm.MSTORE8)
+		oa.pushN(0).pushN(0).pushN(1).pushN(0).pushN(v).pushB(victim.Bytes()).pushN(200000).op(vm.CALL).op(vm.POP)
+	}
+	oa.op(vm.STOP)
+	all := []common.InternalAddress{victim, orch, payer, bens[0], bens[1]}
+	for _, a := range all {
+		env.sdb.CreateAccount(a)
+	}
+	env.sdb.SetCode(victim, va.b)
+	env.sdb.SetCode(orch, oa.b)
+	env.sdb.AddBalance(victim, big.NewInt(int64(rc.Intn(500))))
+	env.sdb.AddBalance(orch, new(big.Int).Add(sent, big.NewInt(int64(rc.Intn(100)))))
+	price := big.NewInt(int64(1 + rc.Intn(4)))
+	gasLimit := uint64(3_000_000)
+	env.sdb.AddBalance(payer, new(big.Int).Mul(new(big.Int).SetUint64(gasLimit), big.NewInt(5)))
+	sumAll := func() *big.Int {
+		t := new(big.Int)
+		for _, a := range all {
+			t.Add(t, env.sdb.GetBalance(a))
+		}
+		return t
+	}
+	before := sumAll()
+	env.evm.TxContext.GasPrice = price
+	to := common.NewAddressFromData(&orch)
+	var al types.AccessList
+	for _, a := range all {
+		x := a
+		al = append(al, types.AccessTuple{Address: common.NewAddressFromData(&x)})
+	}
+	msg := types.NewMessage(common.NewAddressFromData(&payer), &to, 0, new(big.Int), gasLimit, price, nil, al, false)
+	res, err := core.ApplyMessage(env.evm, msg, new(types.GasPool).AddGas(gasLimit))
+	if err != nil {
+		o.Count("suicide-again:not-applied")
+		return
+	}
+	charge := new(big.Int).Mul(new(big.Int).SetUint64(res.UsedGas), price)
+	refund := new(big.Int).Mul(env.evm.Context.BaseFee, new(big.Int).SetUint64(params.CallNewAccountGas(env.evm.Context.QuaiStateSize)))
+	check := func(where string) {
+		after := new(big.Int).Add(sumAll(), charge)
+		bound := new(big.Int).Add(before, new(big.Int).Mul(refund, big.NewInt(int64(ncalls))))
+		if after.Cmp(bound) > 0 {
+			o.Violate("c02-repeated-selfdestruct-creates-value", fmt.Sprintf("%s: a contract destroyed %d times in one transaction (paid %s in between): balances + gas charge %s exceed the %s held before plus %d refunds of %s (failed=%v)", where, ncalls, sent, after, before, ncalls, refund, res.Failed()))
+		}
+	}
+	check("after the transaction")
+	env.sdb.Finalize(true)
+	check("after the end of the transaction is processed")
+	o.Count("suicide-again")
 }
 
 func evOneETX(o *h.Out, rc *h.Rng, ans func(string)) {
@@ -803,6 +900,29 @@ func evValueTree(o *h.Out, rc *h.Rng, ans func(string)) {
 			}
 		}
 	}
+	// directed: the last self-destruct of the tree pays an account that destroyed itself earlier in the transaction - a
+	// destroyed account that holds value when the transaction ends (the second phase then sends it a transfer)
+	revived := 0
+	if rc.Chance(50) {
+		type sd struct {
+			nd *vNode
+			i  int
+		}
+		var sds []sd
+		for _, nd := range nodes { // creation order = execution order of the frames' first entries
+			for i, it := range nd.items {
+				if x, ok := it.(int); ok && x < 0 {
+					sds = append(sds, sd{nd, i})
+				}
+			}
+		}
+		if len(sds) >= 2 && sds[0].nd != sds[len(sds)-1].nd {
+			last := sds[len(sds)-1]
+			last.nd.items[last.i] = -sds[0].nd.addr
+			revived = sds[0].nd.addr
+			o.Count("vtree:destroyed-account-paid-later")
+		}
+	}
 	codes := map[*vNode]common.InternalAddress{}
 	for _, nd := range nodes {
 		codes[nd] = evContract(nd.addr)
@@ -936,6 +1056,9 @@ func evValueTree(o *h.Out, rc *h.Rng, ans func(string)) {
 	}
 	for i, k := 0, 2+rc.Intn(4); i < k; i++ {
 		nd := nodes[rc.Intn(len(nodes))]
+		if revived != 0 && i == 0 {
+			nd = nodes[revived-1]
+		}
 		ta := evContract(nd.addr)
 		if len(env.sdb.GetCode(ta)) != 0 {
 			continue // still a contract: running it again is the first phase's business (refunds, further ETXs)
